@@ -68,6 +68,13 @@ def binop_src(op, node):
     return op.join((node.left.src, node.right.src))
 
 
+def primary_src(node):
+    # operand of attribute access, call or subscript: anything that binds weaker needs parentheses
+    if getattr(node, 'priority', 0) > 2:
+        return '(%s)' % node.src
+    return node.src
+
+
 def ast2src(tree):
     src = getattr(tree, 'src', None)
     if src is not None:
@@ -106,8 +113,10 @@ class PythonTranslator(ASTTranslator):
         return 'if %s' % node.test.src
     def postExpr(translator, node):
         return node.value.src
+    @priority(15)
     def postIfExp(translator, node):
         return '%s if %s else %s' % (node.body.src, node.test.src, node.orelse.src)
+    @priority(16)
     def postLambda(translator, node):
         return 'lambda %s: %s' % (node.args.src, node.body.src)
     def postarguments(translator, node):
@@ -212,13 +221,13 @@ class PythonTranslator(ASTTranslator):
         return binop_src(' ** ', node)
     def postAttribute(translator, node):
         node.priority = 2
-        return '.'.join((node.value.src, node.attr))
+        return '.'.join((primary_src(node.value), node.attr))
     def postCall(translator, node):
         node.priority = 2
         if len(node.args) == 1 and isinstance(node.args[0], ast.GeneratorExp):
-            return node.func.src + node.args[0].src
+            return primary_src(node.func) + node.args[0].src
         args = [ arg.src for arg in node.args ] + [ kw.src for kw in node.keywords ]
-        return '%s(%s)' % (node.func.src, ', '.join(args))
+        return '%s(%s)' % (primary_src(node.func), ', '.join(args))
     def postkeyword(translator, node):
         if node.arg is None:
             return '**' + node.value.src
@@ -236,7 +245,7 @@ class PythonTranslator(ASTTranslator):
             key = repr(x.value)[1:-1]
         else:
             key = x.src
-        return '%s[%s]' % (node.value.src, key)
+        return '%s[%s]' % (primary_src(node.value), key)
     def postIndex(translator, node):  # Python <= 3.7
         return node.value.src
     def postSlice(translator, node):
@@ -285,23 +294,27 @@ class PythonTranslator(ASTTranslator):
     def postName(translator, node):
         node.priority = 1
         return node.id
-    def postJoinedStr(self, node):
+    def joined_str_content(self, node):
         result = []
         for item in node.values:
             if isinstance(item, ast.Constant):
                 assert isinstance(item.value, str)
-                result.append(item.value)
+                result.append(item.value.replace('{', '{{').replace('}', '}}'))
             elif not PY38 and isinstance(item, ast.Str):  # Python 3.7
-                result.append(item.s)
+                result.append(item.s.replace('{', '{{').replace('}', '}}'))
             elif isinstance(item, ast.FormattedValue):
-                if item.conversion == -1:
-                    src = '{%s}' % item.value.src
-                else:
-                    src = '{%s!%s}' % (item.value.src, chr(item.conversion))
-                result.append(src)
+                src = item.value.src
+                if src.startswith('{'): src = ' ' + src
+                if item.conversion != -1:
+                    src += '!' + chr(item.conversion)
+                if item.format_spec is not None:
+                    src += ':' + self.joined_str_content(item.format_spec)
+                result.append('{%s}' % src)
             else:
                 assert False
-        return "f%r" % ''.join(result)
+        return ''.join(result)
+    def postJoinedStr(self, node):
+        return "f%r" % self.joined_str_content(node)
     def postFormattedValue(self, node):
         return node.value.src
 
